@@ -12,3 +12,5 @@ pub use procedure::FunctionMap;
 #[allow(unused_imports)] // this is actually used in a macro
 pub use procedure::NativeProcedure;
 pub use value::Value;
+#[cfg(feature = "verif")]
+pub use procedure::Callable;
